@@ -83,8 +83,9 @@ Ltac good :=
                       first [ discriminate E
                             | (injection E as E; first [subst; np | rewrite <- E; np])
                             | match goal with H : GoodN _ _ ?n |- _ => exact (proj1 (proj2 H) p E) end ]
-                    | first [ discriminate
-                            | match goal with H : GoodN _ _ ?n |- _ => exact (proj2 (proj2 H)) end ] ] ] ].
+                    | let m := fresh "m" in let E := fresh "Em" in intros m E;
+                      first [ discriminate E
+                            | match goal with H : GoodN _ _ ?n |- _ => exact (proj2 (proj2 H) m E) end ] ] ] ].
 Ltac goodf := let n := fresh "n" in let Hn := fresh "Hn" in intros n Hn; good.
 
 (* goals about the values of index maps *)
@@ -188,15 +189,15 @@ Ltac irp_tac := repeat irp_step.
 
 Section Ops.
 Variable P : id -> Prop.
-Variable b : N.
+Variable PM : N -> Prop.
 Variable T : tables.
 Variable tab_el tab_en : nametab.
 Variable check_fn : N -> list N -> res bool.
 Variable LATEST : N.
 Variable root_attrs : list (N * cdata).
 
-Notation irpq := (irpq P b).
-Notation irp := (CopyProofsIrp.irpq P b (fun _ => True)).
+Notation irpq := (irpq P PM).
+Notation irp := (CopyProofsIrp.irpq P PM (fun _ => True)).
 Notation NPq := (fun c : id => ~ P c).
 
 Lemma irp_content_insert i pos c : ~ P i -> ~ P c -> irp (content_insert i pos (CElem c)).
@@ -218,14 +219,14 @@ Proof. intros Hi. unfold raw_set_character_data. irp_tac. Qed.
 Hint Resolve irp_raw_set_cdata : irp.
 
 Lemma irpq_create_named_inner self name item pos m version :
-  ~ P self -> m <> b -> irpq NPq (create_named_sub_element_inner T check_fn self name item pos m version).
+  ~ P self -> ~ PM m -> irpq NPq (create_named_sub_element_inner T check_fn self name item pos m version).
 Proof. intros Hs Hm. unfold create_named_sub_element_inner. irp_tac. Qed.
 Hint Resolve irpq_create_named_inner : irp.
 Lemma irpq_raw_create_named self name item m version :
-  ~ P self -> m <> b -> irpq NPq (raw_create_named_sub_element T check_fn self name item m version).
+  ~ P self -> ~ PM m -> irpq NPq (raw_create_named_sub_element T check_fn self name item m version).
 Proof. intros Hs Hm. unfold raw_create_named_sub_element. irp_tac. Qed.
 Lemma irpq_raw_create_named_at self name item pos m version :
-  ~ P self -> m <> b -> irpq NPq (raw_create_named_sub_element_at T check_fn self name item pos m version).
+  ~ P self -> ~ PM m -> irpq NPq (raw_create_named_sub_element_at T check_fn self name item pos m version).
 Proof. intros Hs Hm. unfold raw_create_named_sub_element_at. irp_tac. Qed.
 Hint Resolve irpq_raw_create_named irpq_raw_create_named_at : irp.
 
@@ -237,11 +238,11 @@ Lemma irp_detach parent c : ~ P parent -> irp (detach_from parent c).
 Proof. intros Hp. unfold detach_from. irp_tac. Qed.
 Hint Resolve irp_detach : irp.
 
-Lemma irp_remove_internal fuel : forall i m path, ~ P i -> m <> b -> irp (remove_internal T fuel i m path).
+Lemma irp_remove_internal fuel : forall i m path, ~ P i -> ~ PM m -> irp (remove_internal T fuel i m path).
 Proof. induction fuel as [|f IH]; intros i m path Hi Hm; cbn [remove_internal]; irp_tac. Qed.
 Hint Resolve irp_remove_internal : irp.
 
-Lemma irp_raw_remove self sub m : ~ P self -> m <> b -> irp (raw_remove_sub_element T self sub m).
+Lemma irp_raw_remove self sub m : ~ P self -> ~ PM m -> irp (raw_remove_sub_element T self sub m).
 Proof. intros Hs Hm. unfold raw_remove_sub_element. irp_tac. Qed.
 Hint Resolve irp_raw_remove : irp.
 Lemma irp_e_remove h sub : ~ P h -> irp (e_remove_sub_element T h sub).
@@ -258,11 +259,11 @@ Lemma irpq_move_position self mv pos e : ~ P self -> ~ P mv -> irpq NPq (move_el
 Proof. intros Hs Hmv. unfold move_element_position. irp_tac. Qed.
 Hint Resolve irpq_move_position : irp.
 Lemma irpq_move_local self mv pos m version :
-  ~ P self -> ~ P mv -> m <> b -> irpq NPq (move_element_local T check_fn self mv pos m version).
+  ~ P self -> ~ P mv -> ~ PM m -> irpq NPq (move_element_local T check_fn self mv pos m version).
 Proof. intros Hs Hmv Hm. unfold move_element_local. irp_tac. Qed.
 Hint Resolve irpq_move_local : irp.
 Lemma irpq_move_full self mv pos m m_src version :
-  ~ P self -> ~ P mv -> m <> b -> m_src <> b -> irpq NPq (move_element_full T tab_en check_fn self mv pos m m_src version).
+  ~ P self -> ~ P mv -> ~ PM m -> ~ PM m_src -> irpq NPq (move_element_full T tab_en check_fn self mv pos m m_src version).
 Proof. intros Hs Hmv Hm Hms. unfold move_element_full. irp_tac. Qed.
 Hint Resolve irpq_move_full : irp.
 Lemma irpq_e_move h mv : ~ P h -> ~ P mv -> irpq NPq (e_move_element_here T tab_en check_fn LATEST h mv).
@@ -282,7 +283,7 @@ Hint Resolve irp_remove_from_file : irp.
 Lemma irp_set_file_membership e fm : ~ P e -> irp (set_file_membership T e fm).
 Proof. intros He. unfold set_file_membership. irp_tac. Qed.
 Hint Resolve irp_set_file_membership : irp.
-Lemma irp_remove_file m f : m <> b -> irp (m_remove_file T m f).
+Lemma irp_remove_file m f : ~ PM m -> irp (m_remove_file T m f).
 Proof. intros Hm. unfold m_remove_file. irp_tac. Qed.
 
 (* ---------- edits in place ---------- *)
@@ -322,11 +323,11 @@ Proof. intros Hh. unfold e_set_reference_target. irp_tac. Qed.
 Lemma irpq_deep_copy fuel : forall src version, irpq NPq (deep_copy T fuel src version).
 Proof. induction fuel as [|f IH]; intros src version; cbn [deep_copy]; irp_tac. Qed.
 Hint Resolve irpq_deep_copy : irp.
-Lemma irp_register_subtree fuel : forall m cur i, m <> b -> ~ P i -> irp (register_subtree T fuel m cur i).
+Lemma irp_register_subtree fuel : forall m cur i, ~ PM m -> ~ P i -> irp (register_subtree T fuel m cur i).
 Proof. induction fuel as [|f IH]; intros m cur i Hm Hi; cbn [register_subtree]; irp_tac. Qed.
 Hint Resolve irp_register_subtree : irp.
 Lemma irpq_ccsei self other pos m version :
-  ~ P self -> m <> b -> irpq NPq (create_copied_sub_element_inner T self other pos m version).
+  ~ P self -> ~ PM m -> irpq NPq (create_copied_sub_element_inner T self other pos m version).
 Proof. intros Hs Hm. unfold create_copied_sub_element_inner. irp_tac. Qed.
 Hint Resolve irpq_ccsei : irp.
 Lemma irpq_e_copy h other : ~ P h -> irpq NPq (e_create_copied_sub_element T LATEST h other).
@@ -343,36 +344,38 @@ Proof.
   destruct (IH k) as [H|(H1 & H2 & H3)]; [left; exact H|right]. subst. auto.
 Qed.
 
-Lemma irpq_new_model : irpq (fun m => m <> b) (new_model T root_attrs).
+Lemma irpq_new_model : irpq (fun m => ~ PM m) (new_model T root_attrs).
 Proof.
   intros w r w' S E. unfold new_model in E.
   destruct (et_new T (autosar_element T)) as [ty| |]; destruct (elem T (autosar_element T)) as [ed| |]; try discriminate E.
-  injection E as <- <-. destruct S as (S1 & S2 & S3 & (xb & S4)).
+  injection E as <- <-. destruct S as (S1 & S2 & S3 & S4).
   assert (Hfresh : ~ P (w_next w)). { intros Hp. apply S1 in Hp. lia. }
-  assert (Hlen : N.of_nat (List.length (w_models w)) <> b).
-  { intros <-. apply nth_opt_Some in S4. rewrite Nnat.Nat2N.id in S4. lia. }
+  assert (Hlen : ~ PM (N.of_nat (List.length (w_models w)))).
+  { intros Hb. destruct (S4 _ Hb) as (xb & Hxb). apply nth_opt_Some in Hxb. rewrite Nnat.Nat2N.id in Hxb. lia. }
   split; [|split].
   - split; [|split; [|split]]; cbn [w_next w_nodes w_models].
     + intros i Hi. apply S1 in Hi. lia.
     + intros j n Hj Hn. destruct (N.eq_dec j (w_next w)) as [->|Hne].
       * rewrite upd_eq in Hn. injection Hn as <-. split; [intros c []|]. split; [intros p; cbn; discriminate|].
-        cbn. intros [= E]. exact (Hlen E).
+        cbn. intros m [= <-]. exact Hlen.
       * rewrite upd_neq in Hn by exact Hne. eapply S2; eauto.
-    + intros k x Hk Hx. destruct (nth_opt_snoc (w_models w) (mkModel (w_next w) [] [] []) k) as [H|(_ & _ & H)]; rewrite H in Hx.
+    + intros m x Hk Hx. destruct (nth_opt_snoc (w_models w) (mkModel (w_next w) [] [] []) (N.to_nat m)) as [H|(_ & _ & H)]; rewrite H in Hx.
       * eapply S3; eauto.
       * injection Hx as <-. split; [exact Hfresh|]. split; [intros ? ? []|intros ? ? ? []].
-    + exists xb. destruct (nth_opt_snoc (w_models w) (mkModel (w_next w) [] [] []) (N.to_nat b)) as [H|(_ & H & _)]; congruence.
+    + intros m Hm. destruct (S4 m Hm) as (xb & Hxb). exists xb.
+      destruct (nth_opt_snoc (w_models w) (mkModel (w_next w) [] [] []) (N.to_nat m)) as [H|(_ & H & _)]; congruence.
   - split; [|split]; cbn [w_next w_nodes w_models w_files].
     + intros j Hj. apply upd_neq. intros ->. auto.
-    + destruct (nth_opt_snoc (w_models w) (mkModel (w_next w) [] [] []) (N.to_nat b)) as [H|(_ & H & _)]; congruence.
+    + intros m Hm. destruct (S4 m Hm) as (xb & Hxb).
+      destruct (nth_opt_snoc (w_models w) (mkModel (w_next w) [] [] []) (N.to_nat m)) as [H|(_ & H & _)]; congruence.
     + apply FileSame_eq. reflexivity.
   - intros a [= <-]. exact Hlen.
 Qed.
 
 Lemma Sealed_new_file w m name version :
-  m <> b -> Sealed P b w ->
+  ~ PM m -> Sealed P PM w ->
   let w1 := mkWorld (w_nodes w) (w_next w) (w_files w ++ [mkFile m name version None]) (w_models w) in
-  Sealed P b w1 /\ Same P b w w1.
+  Sealed P PM w1 /\ Same P PM w w1.
 Proof.
   intros Hm S w1. split; [exact S|]. split; [reflexivity|]. split; [reflexivity|].
   intros k. subst w1. cbn [w_files].
@@ -380,7 +383,7 @@ Proof.
   rewrite H1, H2. split; [discriminate|]. intros fl [= <-]. exact Hm.
 Qed.
 
-Lemma irpq_create_file m name version : m <> b -> irp (m_create_file T m name version).
+Lemma irpq_create_file m name version : ~ PM m -> irp (m_create_file T m name version).
 Proof.
   intros Hm. unfold m_create_file. apply irpq_get_model; [exact Hm|intros x Gx].
   intros w r w' S E. apply wbind_inv in E as [(w0 & w1 & E1 & E2) | (e & E1 & _)]; [|apply wget_inv in E1 as ([=] & _)].
